@@ -184,7 +184,14 @@ def evaluate(case, res):
             key = (e.vals.get('task_execution_id'),
                    (e.vals.get('runtime_context') or {}).get('index'))
             starts.setdefault(key, set()).add(e.task)
-    if any(len(v) > 1 for v in starts.values()):
+    touched = {}
+    for e in res.recorder.events:
+        if e.committed and e.table == trace.TASK and \
+                e.task.startswith('rpc:start_task') and \
+                (e.op == 'cas' or e.vals):
+            touched.setdefault(e.id, set()).add(e.task)
+    if any(len(v) > 1 for v in starts.values()) or \
+            any(len(v) > 1 for v in touched.values()):
         extra = ' double_start_after_resume'
     # a resume request that failed (and was rolled back) because the
     # commands of a task completed during the pause could not be processed
